@@ -9,7 +9,7 @@ use std::collections::BTreeMap;
 use std::process::{Command, Stdio};
 use std::time::Instant;
 
-const RULE: &str = "case = one API trace (12-16 operations) drawn from {parse text (plain / fancy spelling), build graph through the node API, edit through nodes_mut, freeze ok, freeze on each error exit (empty graph, dangling key reachable from the root, dangling key in an orphan node after earlier nodes were initialised, unnamed cycle, JSON error), move the schema (Box, Vec that reallocates, Arc, swap), serialize + owned decode, borrowed decode whose result outlives the schema, container Reader over slice / BufReader(1..9) / chunked reader for null, deflate, snappy (+ bzip2, xz, zstandard outside Miri) reading n values, cloning reader.schema() and dropping reader / handle in both orders and using the handle afterwards, Debug formatting, two scoped threads using &Schema / Arc<Schema> concurrently with results compared to the sequential ones, three threads making the very FIRST use of a freshly frozen schema concurrently, dropping everything in random order}; every trace runs under Miri (UB + data-race interpreter), under AddressSanitizer and under ThreadSanitizer (std rebuilt with the sanitizer, all six codecs); distinct = distinct trace seeds executed, non-trivial = every trace (each performs at least parse/build + drop)";
+const RULE: &str = "case = one API trace (12-16 operations) drawn from {parse text (plain / fancy spelling), build graph through the node API, edit through nodes_mut, freeze ok, freeze on each error exit (empty graph, dangling key reachable from the root, dangling key in an orphan node after earlier nodes were initialised, unnamed cycle, JSON error), move the schema (Box, Vec that reallocates, Arc, swap), serialize + owned decode, borrowed decode whose result outlives the schema, container Reader over slice / BufReader(1..9) / chunked reader for null, deflate, snappy (+ bzip2, xz, zstandard outside Miri) reading n values, moving the reader in the middle of a block (out of a Box that is freed, through a reallocating Vec, swapped with another mid-block reader) and reading on, the same inside a block larger than the reader's internal 8 KiB buffer so that the block's decompressor is still live when the reader moves, cloning reader.schema() and dropping reader / handle in both orders and using the handle afterwards, Debug formatting, two scoped threads using &Schema / Arc<Schema> concurrently with results compared to the sequential ones, three threads making the very FIRST use of a freshly frozen schema concurrently, dropping everything in random order}; every trace runs under Miri (UB + data-race interpreter), under AddressSanitizer and under ThreadSanitizer (std rebuilt with the sanitizer, all six codecs); distinct = distinct trace seeds executed, non-trivial = every trace (each performs at least parse/build + drop)";
 
 struct Stage {
 	name: &'static str,
@@ -56,9 +56,19 @@ fn report_signature(stderr: &str) -> String {
 		.find(|l| l.contains("Undefined Behavior") || l.contains("ERROR: AddressSanitizer") || l.contains("WARNING: ThreadSanitizer") || l.contains("Data race") || l.starts_with("error:") || l.contains("Invalid read") || l.contains("Invalid write") || l.contains("uninitialised"))
 		.unwrap_or("abnormal exit")
 		.trim();
+	// addresses, pids and counts out: the signature names the kind of report only
 	let kind: String = kind
+		.split_whitespace()
+		.map(|w| {
+			if w.starts_with("0x") || w.starts_with("(pid=") || w.starts_with("==") {
+				"#".to_owned()
+			} else {
+				w.chars().map(|c| if c.is_ascii_digit() { '#' } else { c }).collect::<String>()
+			}
+		})
+		.collect::<Vec<_>>()
+		.join(" ")
 		.chars()
-		.map(|c| if c.is_ascii_digit() { '#' } else { c })
 		.take(90)
 		.collect();
 	// only the part of the output that follows the report itself (compiler warnings precede it)
@@ -71,11 +81,30 @@ fn report_signature(stderr: &str) -> String {
 		.find(|l| l.contains("serde_avro_fast/src/") || l.contains("serde_avro_fast::"))
 		.map(|l| {
 			let l = l.trim();
-			let f = l.rsplit("serde_avro_fast/src/").next().unwrap_or(l);
-			f.split(':').next().unwrap_or(f).to_owned()
+			if l.contains("serde_avro_fast/src/") {
+				let f = l.rsplit("serde_avro_fast/src/").next().unwrap_or(l);
+				f.split(':').next().unwrap_or(f).to_owned()
+			} else {
+				// a symbol: keep the path up to the first generic argument
+				let f = l.split("serde_avro_fast::").nth(1).unwrap_or(l);
+				format!("serde_avro_fast::{}", f.split(|c| c == '<' || c == ' ' || c == '(').next().unwrap_or(f))
+			}
 		})
 		.unwrap_or_else(|| "no-frame-in-repo".into());
 	format!("{kind} at {frame}")
+}
+
+/// Wait for all children while reading their pipes concurrently (a child that fills its stdout pipe would otherwise
+/// sit blocked until its turn comes, serialising the stage)
+fn drain(children: Vec<(u64, std::io::Result<std::process::Child>)>) -> Vec<(u64, std::io::Result<std::process::Output>)> {
+	let handles: Vec<_> = children
+		.into_iter()
+		.map(|(p, ch)| (p, std::thread::spawn(move || ch.and_then(|c| c.wait_with_output()))))
+		.collect();
+	handles
+		.into_iter()
+		.map(|(p, h)| (p, h.join().unwrap_or_else(|_| Err(std::io::Error::new(std::io::ErrorKind::Other, "collector thread died")))))
+		.collect()
 }
 
 pub fn run(thorough: bool, seed: u64) -> i32 {
@@ -99,8 +128,8 @@ pub fn run(thorough: bool, seed: u64) -> i32 {
 		]
 	} else {
 		vec![
-			("miri-stacked-borrows", "-Zmiri-ignore-leaks".into(), 16),
-			("miri-many-seeds", "-Zmiri-ignore-leaks -Zmiri-many-seeds=0..4".into(), 2),
+			("miri-stacked-borrows", "-Zmiri-ignore-leaks".into(), 8),
+			("miri-many-seeds", "-Zmiri-ignore-leaks -Zmiri-many-seeds=0..4".into(), 1),
 		]
 	};
 	// build once
@@ -146,14 +175,16 @@ pub fn run(thorough: bool, seed: u64) -> i32 {
 				)
 			})
 			.collect();
-		for (pseed, ch) in children {
-			let out = match ch.and_then(|c| c.wait_with_output()) {
+		let stage_t0 = Instant::now();
+		for (pseed, ch) in drain(children) {
+			let out = match ch {
 				Ok(o) => o,
 				Err(_) => {
 					inconclusive += 1;
 					continue;
 				}
 			};
+			eprintln!("{name}: process {pseed} done at +{:.0}s", stage_t0.elapsed().as_secs_f64());
 			st.procs += 1;
 			let so = String::from_utf8_lossy(&out.stdout).into_owned();
 			let se = String::from_utf8_lossy(&out.stderr).into_owned();
@@ -186,6 +217,7 @@ pub fn run(thorough: bool, seed: u64) -> i32 {
 		stages.push(st);
 	}
 
+	eprintln!("stage boundary: miri done at +{:.0}s", t0.elapsed().as_secs_f64());
 	// ---------------------------------------------------------------- AddressSanitizer (all codecs)
 	let asan_build = Command::new("cargo")
 		.args(["+nightly", "build", "--offline", "-q", "--target", "x86_64-unknown-linux-gnu", "--features", "ffi_codecs"])
@@ -219,8 +251,8 @@ pub fn run(thorough: bool, seed: u64) -> i32 {
 					)
 				})
 				.collect();
-			for (pseed, ch) in children {
-				let out = match ch.and_then(|c| c.wait_with_output()) {
+			for (pseed, ch) in drain(children) {
+				let out = match ch {
 					Ok(o) => o,
 					Err(_) => {
 						inconclusive += 1;
@@ -257,6 +289,7 @@ pub fn run(thorough: bool, seed: u64) -> i32 {
 		}
 	}
 
+	eprintln!("stage boundary: asan done at +{:.0}s", t0.elapsed().as_secs_f64());
 	// ---------------------------------------------------------------- ThreadSanitizer (all codecs; std rebuilt with the sanitizer)
 	let tsan_build = Command::new("cargo")
 		.args(["+nightly", "build", "--offline", "-q", "-Zbuild-std", "--target", "x86_64-unknown-linux-gnu", "--features", "ffi_codecs"])
@@ -273,7 +306,7 @@ pub fn run(thorough: bool, seed: u64) -> i32 {
 				bigrams: 0,
 				procs: 0,
 			};
-			let ntr = if thorough { 40_000 } else { 2_500 };
+			let ntr = if thorough { 40_000 } else { 2_000 };
 			let children: Vec<_> = (0..nproc)
 				.map(|p| {
 					let pseed = crate::rng::mix(&[seed, 78, p]);
@@ -290,8 +323,8 @@ pub fn run(thorough: bool, seed: u64) -> i32 {
 					)
 				})
 				.collect();
-			for (pseed, ch) in children {
-				let out = match ch.and_then(|c| c.wait_with_output()) {
+			for (pseed, ch) in drain(children) {
+				let out = match ch {
 					Ok(o) => o,
 					Err(_) => {
 						inconclusive += 1;
@@ -328,6 +361,7 @@ pub fn run(thorough: bool, seed: u64) -> i32 {
 		}
 	}
 
+	eprintln!("stage boundary: tsan done at +{:.0}s", t0.elapsed().as_secs_f64());
 	// ---------------------------------------------------------------- valgrind memcheck (thorough)
 	if thorough {
 		let vb = Command::new("cargo")
@@ -361,8 +395,8 @@ pub fn run(thorough: bool, seed: u64) -> i32 {
 					)
 				})
 				.collect();
-			for (pseed, ch) in children {
-				if let Ok(out) = ch.and_then(|c| c.wait_with_output()) {
+			for (pseed, ch) in drain(children) {
+				if let Ok(out) = ch {
 					st.procs += 1;
 					let so = String::from_utf8_lossy(&out.stdout).into_owned();
 					let se = String::from_utf8_lossy(&out.stderr).into_owned();
@@ -414,6 +448,10 @@ pub fn run(thorough: bool, seed: u64) -> i32 {
 			"miri-stacked-borrows:op:reader:snappy",
 			"miri-stacked-borrows:op:move",
 			"asan:op:reader:zstandard",
+			"asan:op:reader-moved-mid-block:zstandard",
+			"asan:op:reader-moved-in-big-block:zstandard",
+			"asan:op:reader-moved-in-big-block:xz",
+			"miri-stacked-borrows:op:reader-moved-mid-block:deflate",
 			"traces:tsan",
 			"tsan:op:threads-first-use",
 			"tsan:op:reader:zstandard",
